@@ -51,17 +51,23 @@ def RenumberParticlesOK (nat : Nat → α) (l out : Motl α) : Prop :=
 object numbers moved by ONE offset -/
 def BlockOK [Add α] (fill : α → α) (m b : Motl α) : Prop :=
   List.Forall₂ (fun p q => Unchanged fill p q) m b
-  ∧ ∃ c : α, List.Forall₂ (fun p q => q.object_id = p.object_id + c) m b
+  ∧ ∃ c : α, List.Forall₂ (fun p q => q.object_id = fill p.object_id + c) m b
 
 def DisjointObj (b c : Motl α) : Prop := ∀ p ∈ b, ∀ q ∈ c, p.object_id ≠ q.object_id
 
-def MergeRenumberOK [Add α] (fill : α → α) (nat : Nat → α) (ins : List (Motl α)) (out : Motl α) : Prop :=
-  ∃ bs : List (Motl α), out = bs.flatten ∧ List.Forall₂ (BlockOK fill) ins bs ∧ bs.Pairwise DisjointObj
-    ∧ (out.map (·.subtomo_id)).Perm ((List.range ins.flatten.length).map (fun i => nat (i + 1)))
+/-- inputs are tagged `(bare DataFrame?, rows)`: the output is the inputs one after the other, block by
+block the same rows (ids aside; missing values possibly filled ONLY for a DataFrame input) with one
+object-number offset per block, blocks never share an object number, and the subtomogram numbers are
+1..N in row order -/
+def MergeRenumberOK [Add α] (fill : α → α) (nat : Nat → α) (ins : List (Bool × Motl α)) (out : Motl α) : Prop :=
+  ∃ bs : List (Motl α), out = bs.flatten ∧ List.Forall₂ (fun x b => BlockOK (fillIf fill x.1) x.2 b) ins bs
+    ∧ bs.Pairwise DisjointObj
+    ∧ out.map (·.subtomo_id) = (List.range (ins.map (·.2)).flatten.length).map (fun i => nat (i + 1))
 
-def MergeDropDupOK [Add α] [LE α] (fill : α → α) (ins : List (Motl α)) (out : Motl α) : Prop :=
-  ∃ cs : List α, cs.length = ins.length ∧ (List.zipWith shiftObj cs ins).Pairwise DisjointObj
-    ∧ DropDupOK fill .subtomo_id .score false (List.zipWith shiftObj cs ins).flatten out
+def MergeDropDupOK [Add α] [LE α] (fill : α → α) (ins : List (Bool × Motl α)) (out : Motl α) : Prop :=
+  ∃ cs : List α, cs.length = ins.length ∧ ((shiftedInputs fill cs ins).map (·.2)).Pairwise DisjointObj
+    ∧ (∀ q ∈ out, ∃ x ∈ shiftedInputs fill cs ins, ∃ p ∈ x.2, Same (fillIf fill x.1) p q)
+    ∧ DropDupOK fill .subtomo_id .score false ((shiftedInputs fill cs ins).map (·.2)).flatten out
 
 def RenumberObjectsOK [Add α] (nat : Nat → α) (start : α) (l out : Motl α) : Prop :=
   List.Forall₂ (fun p q => ∀ f : Field, f ≠ Field.object_id → q.get f = p.get f) l out
@@ -263,18 +269,18 @@ theorem sameB_ids_iff (fill : α → α) (p q : Particle α) :
 
 theorem blockOkB_iff (fill : α → α) (m b : Motl α) : blockOkB eqv fill m b = true ↔ BlockOK fill m b := by
   unfold blockOkB BlockOK
-  rw [forall2B_iff _ (fun p q => Unchanged fill p q ∧ q.object_id = p.object_id + offsetOf m b) m b
+  rw [forall2B_iff _ (fun p q => Unchanged fill p q ∧ q.object_id = fill p.object_id + offsetOf fill m b) m b
     (fun p _ q _ => by rw [Bool.and_eq_true, sameB_ids_iff eqv heqv, beq_iff_eq])]
   constructor
   · intro h
-    exact ⟨h.imp (fun _ _ hab => hab.1), offsetOf m b, h.imp (fun _ _ hab => hab.2)⟩
+    exact ⟨h.imp (fun _ _ hab => hab.1), offsetOf fill m b, h.imp (fun _ _ hab => hab.2)⟩
   · rintro ⟨h1, c, h2⟩
     cases h2 with
     | nil => exact List.Forall₂.nil
     | @cons p0 q0 m' b' e h2' =>
-      have hoff : offsetOf (p0 :: m') (q0 :: b') = c := by show q0.object_id - p0.object_id = c; rw [e]; ring
+      have hoff : offsetOf fill (p0 :: m') (q0 :: b') = c := by show q0.object_id - fill p0.object_id = c; rw [e]; ring
       rw [hoff]
-      have h2 : List.Forall₂ (fun p q => q.object_id = p.object_id + c) (p0 :: m') (q0 :: b') := List.Forall₂.cons e h2'
+      have h2 : List.Forall₂ (fun p q => q.object_id = fill p.object_id + c) (p0 :: m') (q0 :: b') := List.Forall₂.cons e h2'
       clear hoff
       generalize p0 :: m' = mm at *
       generalize q0 :: b' = bb at *
@@ -288,38 +294,42 @@ theorem disjointObjB_iff (b c : Motl α) : disjointObjB b c = true ↔ DisjointO
   simp only [disjointObjB, DisjointObj, List.all_eq_true, Bool.not_eq_eq_eq_not, Bool.not_true,
     beq_eq_false_iff_ne, ne_eq]
 
-theorem checkMergeRenumber_iff (fill : α → α) (nat : Nat → α) (ins : List (Motl α)) (out : Motl α) :
+theorem checkMergeRenumber_iff (fill : α → α) (nat : Nat → α) (ins : List (Bool × Motl α)) (out : Motl α) :
     checkMergeRenumber eqv fill nat ins out = true ↔ MergeRenumberOK fill nat ins out := by
   unfold checkMergeRenumber mergeRenumberClauses MergeRenumberOK
+  have hids : ∀ (xs ys : List α), forall2B (fun (a b : α) => a == b) xs ys = true ↔ xs = ys := by
+    intro xs ys
+    rw [forall2B_iff (fun (a b : α) => a == b) (· = ·) _ _ (fun a _ b _ => beq_iff_eq)]
+    exact List.forall₂_eq_eq_eq ▸ Iff.rfl
   constructor
   · intro h
-    cases hs : splitBy ins out with
+    cases hs : splitBy (ins.map (·.2)) out with
     | none => rw [hs] at h; simp at h
     | some bs =>
       rw [hs] at h
       simp only [List.all_cons, List.all_nil, Bool.and_true, Bool.and_eq_true] at h
       obtain ⟨h1, h2, h3⟩ := h
-      refine ⟨bs, (splitBy_some ins out bs hs).1, ?_, ?_, List.isPerm_iff.1 h3⟩
-      · exact (forall2B_iff _ _ ins bs (fun m _ b _ => blockOkB_iff eqv heqv fill m b)).1 h1
+      refine ⟨bs, (splitBy_some _ out bs hs).1, ?_, ?_, (hids _ _).1 h3⟩
+      · exact (forall2B_iff _ _ ins bs (fun x _ b _ => blockOkB_iff eqv heqv (fillIf fill x.1) x.2 b)).1 h1
       · exact (pairwiseB_iff _ _ (disjointObjB_iff eqv heqv) bs).1 h2
   · rintro ⟨bs, rfl, h1, h2, h3⟩
-    have hlen : List.Forall₂ (fun (m b : Motl α) => m.length = b.length) ins bs :=
-      h1.imp (fun _ _ hb => hb.1.length_eq)
-    rw [splitBy_flatten ins bs hlen]
+    have hlen : List.Forall₂ (fun (m b : Motl α) => m.length = b.length) (ins.map (·.2)) bs :=
+      List.forall₂_map_left_iff.2 (h1.imp (fun _ _ hb => hb.1.length_eq))
+    rw [splitBy_flatten _ bs hlen]
     simp only [List.all_cons, List.all_nil, Bool.and_true, Bool.and_eq_true]
-    exact ⟨(forall2B_iff _ _ ins bs (fun m _ b _ => blockOkB_iff eqv heqv fill m b)).2 h1,
-      (pairwiseB_iff _ _ (disjointObjB_iff eqv heqv) bs).2 h2, List.isPerm_iff.2 h3⟩
+    exact ⟨(forall2B_iff _ _ ins bs (fun x _ b _ => blockOkB_iff eqv heqv (fillIf fill x.1) x.2 b)).2 h1,
+      (pairwiseB_iff _ _ (disjointObjB_iff eqv heqv) bs).2 h2, (hids _ _).2 h3⟩
 
-theorem checkMergeDropDup_iff (fill : α → α) (ins : List (Motl α)) (out : Motl α) :
+theorem checkMergeDropDup_iff (fill : α → α) (ins : List (Bool × Motl α)) (out : Motl α) :
     (∃ cs, checkMergeDropDup eqv fill cs ins out = true) ↔ MergeDropDupOK fill ins out := by
   unfold MergeDropDupOK
   refine exists_congr (fun cs => ?_)
   have hd := checkDropDup_iff eqv heqv fill Field.subtomo_id Field.score false
-    (List.zipWith shiftObj cs ins).flatten out
+    ((shiftedInputs fill cs ins).map (·.2)).flatten out
   unfold checkDropDup at hd
   simp only [checkMergeDropDup, mergeDropDupClauses, List.all_append, List.all_cons, List.all_nil, Bool.and_true,
     Bool.and_eq_true, hd, beq_iff_eq, pairwiseB_iff _ _ (disjointObjB_iff eqv heqv)]
-  exact and_assoc
+  simp only [List.all_eq_true, List.any_eq_true, sameB_iff eqv heqv, Bool.false_eq_true, false_or, Same, and_assoc]
 
 theorem sameB_skip_iff (h : Field) (p q : Particle α) :
     sameB eqv (fun v => v) (fun g => g == h) p q = true ↔ ∀ f : Field, f ≠ h → q.get f = p.get f := by
